@@ -63,3 +63,73 @@ Example C08_nonvacuous :
   parse_instance I None = Some [(EUndefVar 9, [(M_INSTANCE, "constraints"%string)])] /\
   parse_instance (set_lists I [] []) None = None.
 Proof. vm_compute. repeat split. Qed.
+
+
+(* ---------------------------------------------------------------------------------------------
+   VALIDITY IS PRESERVED by every transformation of the SDK (WfPreserve.v), for an arbitrary dropping
+   test: a valid instance stays valid under relax / restore (and any history of them),
+   as_minimization, partial evaluation, both penalty methods (parametric validity) followed by
+   with_parameters, Instance -> ParametricInstance, substitution (when the replacements of USED
+   variables mention defined ids only), log_encode (+ registration of the binaries, + substitution of
+   the encoding) and both integer-slack conversions.  with_parameters needs the removed constraints
+   of the parametric instance to mention decision variables only (they are copied, not instantiated:
+   with_parameters_removed_refuted is the counterexample); this holds after the penalty methods. *)
+Require Import Ommx.Bound Ommx.Arith Ommx.PEval Ommx.PEvalInst Ommx.Subst Ommx.Slack Ommx.LogEncPath Ommx.WfPreserve.
+Theorem C08_preserved_relax : forall I id reason params J,
+  validate I = true -> relax I id reason params = Some J -> validate J = true.
+Proof. exact relax_preserves_validity. Qed.
+Print Assumptions C08_preserved_relax.
+Theorem C08_preserved_restore : forall I id J,
+  validate I = true -> restore I id = Some J -> validate J = true.
+Proof. exact restore_preserves_validity. Qed.
+Print Assumptions C08_preserved_restore.
+Theorem C08_preserved_as_min : forall tiny I J,
+  validate I = true -> as_min tiny I = Some J -> validate J = true.
+Proof. exact as_min_preserves_validity. Qed.
+Print Assumptions C08_preserved_as_min.
+Theorem C08_preserved_partial_evaluate : forall tiny I s J u,
+  validate I = true -> inst_pe tiny I s = Some (J, u) -> validate J = true.
+Proof. exact inst_pe_preserves_validity. Qed.
+Print Assumptions C08_preserved_partial_evaluate.
+Theorem C08_preserved_penalty : forall tiny I P,
+  validate I = true -> penalty tiny I = Some P -> pvalidate P = true.
+Proof. exact penalty_preserves_validity. Qed.
+Print Assumptions C08_preserved_penalty.
+Theorem C08_preserved_uniform_penalty : forall tiny I P,
+  validate I = true -> uniform_penalty tiny I = Some P -> pvalidate P = true.
+Proof. exact uniform_penalty_preserves_validity. Qed.
+Print Assumptions C08_preserved_uniform_penalty.
+Theorem C08_preserved_with_parameters : forall tiny P theta J,
+  pvalidate P = true -> removed_defined P ->
+  with_parameters tiny P theta = Some J -> validate J = true.
+Proof. exact with_parameters_preserves_validity. Qed.
+Print Assumptions C08_preserved_with_parameters.
+Theorem C08_preserved_penalty_with_parameters : forall tiny I P theta J,
+  validate I = true -> penalty tiny I = Some P -> with_parameters tiny P theta = Some J -> validate J = true.
+Proof. exact penalty_with_parameters_valid. Qed.
+Print Assumptions C08_preserved_penalty_with_parameters.
+Theorem C08_preserved_of_instance : forall I, validate I = true -> pvalidate (of_instance I) = true.
+Proof. exact of_instance_preserves_validity. Qed.
+Print Assumptions C08_preserved_of_instance.
+Theorem C08_preserved_substitute : forall tiny I R J,
+  validate I = true -> repl_defined I R -> inst_substitute tiny I R = Some J -> validate J = true.
+Proof. exact inst_substitute_preserves_validity. Qed.
+Print Assumptions C08_preserved_substitute.
+Theorem C08_preserved_log_encode : forall tiny I id E bits J,
+  validate I = true -> log_encode tiny I id = inr (E, bits) ->
+  validate (add_dvs I bits) = true /\
+  (inst_substitute tiny (add_dvs I bits) [(id, FLin E)] = Some J -> validate J = true).
+Proof. intros tiny I id E bits J V L. split; [exact (log_encode_add_dvs_valid tiny I id E bits V L)|exact (log_encode_substitute_valid tiny I id E bits J V L)]. Qed.
+Print Assumptions C08_preserved_log_encode.
+Theorem C08_preserved_convert_slack : forall tiny I cid max_range J,
+  validate I = true -> convert_slack tiny I cid max_range = inr J -> validate J = true.
+Proof. exact convert_slack_preserves_validity. Qed.
+Print Assumptions C08_preserved_convert_slack.
+Theorem C08_preserved_add_slack : forall tiny I cid Ub J b,
+  validate I = true -> add_slack tiny I cid Ub = inr (J, b) -> validate J = true.
+Proof. exact add_slack_preserves_validity. Qed.
+Print Assumptions C08_preserved_add_slack.
+Check with_parameters_removed_refuted.
+Check substitute_undefined_refuted.
+Check pipeline_by_theorems.
+Print Assumptions pipeline_by_theorems.
